@@ -35,6 +35,11 @@ CLAIMED = {
          "For every generated configuration and every repetition: the call returns, there is exactly one execution context per enabled rule, the (rule, fired) map and both counters equal the sequential path, and the sequential verdicts equal REF where defined. Schedules are sampled (OS + hook), not enumerated: a sound oracle with stress-level schedule coverage.",
          "Real threads; schedule coverage is whatever the OS and the H5 hook produce. No custom functions, so actions do not change the facts.",
          "DESIGN.md §6 C19, §8"),
+ "C04": ("exploration",
+         "grammar-based property testing of the GRL parser: files generated from the documented grammar with layout/comment noise, judged by a full structural round trip against the generating AST, by a metamorphic relation (each rule of a file equals the canonical one-line print of that rule parsed alone) and by agreement of the three entry points; exhaustive enumeration of attribute subsets/orders and of small condition trees; optional libFuzzer target over the same byte decoding",
+         "Every parsed Rule (name, salience, flags, groups, dates, condition tree modulo associativity, action list) must equal what was written, in source order, whatever the whitespace, line breaks, comments and neighbouring rules; parse_rule and parse_with_modules must agree with parse_rules. 11 recorded findings (string literals are not opaque to the regex-split parser, $-forms, parenthesised left sides) are excluded by per-finding generator switches and re-checked through their witnesses on every run.",
+         "Grammar = the documented one minus aspirational constructs; Rule.description is not judged (the statement does not list it). Each known finding's switch is armed only while its `known:` line is present.",
+         "DESIGN.md §6 C04, §10.5"),
  "C06": ("exploration",
          "stateful property testing of the incremental RETE engine: generated single-type rule sets converted by the real GRL loader with recorder-wrapped actions, histories of insert/update/retract/fire_all/reset, judged by REF on the matched fact's contents at firing time, a completeness oracle for the first fire_all, and a 4-view working-memory invariant; exhaustive short histories",
          "Every firing in every generated history is checked at the moment it happens: the matched handle (exposed by a hook) is live and REF says the rule's condition is true of exactly the contents the engine presents; when actions are no-ops and rules no-loop, the first fire_all fires exactly the satisfied rules once; all working-memory views agree after every operation and retracted handles are rejected. Bounded by <= 6 facts, <= 3 types, <= 4 rules, histories <= 15.",
